@@ -42,7 +42,7 @@ type connectFuture struct {
 
 func (f *connectFuture) SessionPresent() bool {
 	// get result
-	connack := f.Result().(*packet.Connack)
+	connack, _ := f.Result().(*packet.Connack)
 	if connack == nil {
 		return false
 	}
@@ -52,7 +52,7 @@ func (f *connectFuture) SessionPresent() bool {
 
 func (f *connectFuture) ReturnCode() packet.ConnackCode {
 	// get result
-	connack := f.Result().(*packet.Connack)
+	connack, _ := f.Result().(*packet.Connack)
 	if connack == nil {
 		return 0
 	}
@@ -66,7 +66,7 @@ type subscribeFuture struct {
 
 func (f *subscribeFuture) ReturnCodes() []packet.QOS {
 	// get result
-	suback := f.Result().(*packet.Suback)
+	suback, _ := f.Result().(*packet.Suback)
 	if suback == nil {
 		return nil
 	}
